@@ -9,15 +9,15 @@ FINDING_OF = {'OpCacheKeyedByName': 'D08', 'NodeCacheSurvives': 'D09', 'StateSta
 ALL_PROPS = ['ReadOnlyPreservesMeaning', 'OnlyAddressedChange', 'EdgeOverrideOnlyItsEdge', 'LoadYieldsFile', 'ClearModelClears']
 
 
-def tlc_behaviours(ctx, name, calls, maxlen, workers=16, simulate=None):
+def tlc_behaviours(ctx, name, calls, maxlen, workers=16, simulate=None, extra=()):
     c0 = tlc.cfg(constants=dict(Dev=set(), Calls=set(calls), MaxLen=maxlen), invariants=['HistoryIndependent'],
-                 properties=ALL_PROPS, constraints=['Bound'], view='View')
+                 properties=ALL_PROPS, constraints=['Bound'] + list(extra), view='View')
     r0 = tlc.run_tlc('Api', c0, workers=workers, timeout=3000)
     ctx.add_tlc(f'design:{name}', r0, 'Dev={}: P refines M, action properties')
     if not r0['ok']:
         ctx.spec_violation(name, r0)
     c1 = tlc.cfg(constants=dict(Dev=set(KNOWN), Calls=set(calls), MaxLen=maxlen), invariants=['OnlyKnown'],
-                 constraints=['Bound', 'NoStaleNodeCache'], view='View', next='NextExport')
+                 constraints=['Bound', 'NoStaleNodeCache'] + list(extra), view='View', next='NextExport')
     r1 = tlc.run_tlc('Api', c1, workers=workers, timeout=3000)
     ctx.add_tlc(f'export:{name}', r1, 'Dev=Known: behaviours with expM / expP')
     if not r1['ok']:
